@@ -285,3 +285,48 @@ pub fn repack_run(
         .map_err(|e| e.to_string())?;
     Ok(summary)
 }
+
+/// Like `basic_packer_run`, but the save decision is the real `BasicPacker::should_save()` with a
+/// `PackSizer::fixed(pack_size)` (count limit, size limit, age limit), exactly as
+/// `RawPacker::add_raw` takes it; `RawPacker::finalize` at the end.
+pub fn basic_packer_run_auto(
+    tpe: BlobType,
+    key: &MasterKey,
+    pack_size: u32,
+    ops: Vec<(Vec<u8>, Id, Option<u32>)>,
+) -> Result<Vec<(Vec<u8>, IndexPack)>, String> {
+    let k = key.key();
+    let mut basic = BasicPacker::new(tpe, PackSizer::fixed(pack_size));
+    let mut out = Vec::new();
+    let mut save = |basic: &mut BasicPacker| -> Result<(), String> {
+        let data = basic.header_bytes().map_err(|e| e.to_string())?;
+        let data: Bytes = k.encrypt_data(&data).map_err(|e| e.to_string())?.into();
+        basic.write_header(data).map_err(|e| e.to_string())?;
+        let (file, index) = basic.take_data();
+        let bytes: Vec<u8> = file
+            .into_vec()
+            .into_iter()
+            .flat_map(|b| b.to_vec())
+            .collect();
+        out.push((bytes, index));
+        Ok(())
+    };
+    for (data, id, ulen) in ops {
+        let data_len = data.len() as u64;
+        basic
+            .add_raw(
+                Bytes::from(data),
+                &BlobId::from(id),
+                data_len,
+                ulen.and_then(NonZeroU32::new),
+            )
+            .map_err(|e| e.to_string())?;
+        if basic.should_save() {
+            save(&mut basic)?;
+        }
+    }
+    if !basic.is_empty() {
+        save(&mut basic)?;
+    }
+    Ok(out)
+}
